@@ -138,11 +138,14 @@ TEXT["C18"] = {
 TEXT["C19"] = {
     "level": "PARTIAL: text/template is a parameter of the model. Theorems about the export glue: nil / failing reader => invalid-template and no "
              "output; reader = string with the full content; nil report => null-pointer; engine failure => invalid-template and no output; "
-             "otherwise exactly the engine's text; never output together with an error. The fidelity to text/template is checked by the "
+             "otherwise exactly the engine's text; never output together with an error. The glue is tied to the source by a translator: "
+             "go/glue translates getTempleteString, executeTemplate and the six ExportWith/ExportWithString methods statement by statement "
+             "(io.Copy, Parse, Execute as parameters; a panic is none) and Props/SrcGlue.lean proves them equal to the model's glue for every "
+             "engine, receiver, reader and text. The fidelity to text/template is checked by the "
              "harness calling text/template directly on the same report for generated valid and invalid templates, long templates around buffer "
              "sizes, repeated template texts, short-reading / failing / nil readers, and readers read only after further exports.",
     "ref": "5 (C19)", "note": _NOTE + " text/template is trusted as the oracle, not modelled.",
-    "technique": "Lean 4 proof of the glue (engine abstract) + differential run against text/template"}
+    "technique": "Lean 4 proof of the glue (engine abstract) + source-to-Lean translation of the export glue (go/glue) proved equal to the model's + differential run against text/template"}
 TEXT["C15"] = {
     "level": "Theorems on the object-pool model: every scoring/severity/validity/encoding/string/accessor/report/export operation returns the "
              "object unchanged (queries_are_pure), repetition returns identical results (repeated_queries), what a history returns about an "
